@@ -65,7 +65,8 @@ def build_unit(name, canary=False):
     reg = registry()
     cfg = reg["units"][name]
     repo = mkrepo(cfg)
-    asm = U.assemble(repo, cfg["fragments"], canary=canary, canary_frags=cfg.get("canary_fragments"), variant=cfg.get("base_variant"))
+    asm = U.assemble(repo, cfg["fragments"], canary=canary, canary_frags=cfg.get("canary_fragments"), variant=cfg.get("base_variant"),
+                     lemma_frags=cfg.get("canary_lemma_fragments"))
     os.makedirs(BUILD, exist_ok=True)
     path = os.path.join(BUILD, name + ("_canary" if canary else "") + ".rs")
     with open(path, "w", encoding="utf-8") as f:
@@ -363,6 +364,18 @@ def cmd_check(pid, tier):
         for f in c["failures"]:
             if f["region"] is not None and "assert(false)" in f["clause"]:
                 got[f["region"].id] = got.get(f["region"].id, 0) + 1
+        # hand-written lemmas: every `proof fn` of the listed fragments must fail its canary
+        lem = set(getattr(c.get("asm"), "lemma_canaries", []) or [])
+        got_l = set()
+        for f in c["failures"]:
+            m = re.search(r"VX-CANARY-L (\w+)", f["clause"])
+            if m:
+                got_l.add(m.group(1))
+        canary_total += len(lem)
+        canary_ok += len(lem & got_l)
+        for nm in sorted(lem - got_l):
+            guard_msgs.append("canary in lemma %s did NOT fail: its requires may be contradictory" % nm)
+            undecided.append({"unit": u, "reason": "vacuity: canary assert(false) verified in lemma " + nm})
         for rg in c["regions"]:
             n = getattr(rg, "canaries", 0)
             canary_total += n
